@@ -277,28 +277,33 @@ def _get_path(grid, obj, paths):
         return NOT_FOUND
 
 
-def _generate_filter_in_python(node, def_filter):
+def _generate_filter_in_python(node, def_filter, consts):
     if isinstance(node, FilterPath):
         def_filter.append("_get_path(_grid, _entity, %s)" % node.path)
     elif isinstance(node, FilterBinary):
         def_filter.append("(")
-        def_filter.extend(_generate_filter_in_python(node.left, []))
+        def_filter.extend(_generate_filter_in_python(node.left, [], consts))
         def_filter.append(" " + node.op + " ")
-        def_filter.extend(_generate_filter_in_python(node.right, []))
+        def_filter.extend(_generate_filter_in_python(node.right, [], consts))
         def_filter.append(")")
     elif isinstance(node, FilterUnary):
         if node.op == "has":
             def_filter.append('(id(')
-            def_filter.extend(_generate_filter_in_python(node.right, []))
+            def_filter.extend(_generate_filter_in_python(node.right, [], consts))
             def_filter.append(') !=  id(NOT_FOUND))')
         elif node.op == "not":
             def_filter.append('(id(')
-            def_filter.extend(_generate_filter_in_python(node.right, []))
+            def_filter.extend(_generate_filter_in_python(node.right, [], consts))
             def_filter.append(") == id(NOT_FOUND))")
         else:  # pragma: no cover
             assert 0
     else:
-        def_filter.append(repr(node))
+        # A literal.  The value itself is handed to the generated function;
+        # its text is never spliced into the source: the repr() of an XStr
+        # is a call of whatever name the filter gave, and that of a date,
+        # time or non-finite number does not evaluate to the value.
+        def_filter.append("_c[%d]" % len(consts))
+        consts.append(node)
     return def_filter
 
 
@@ -316,11 +321,14 @@ class _FnWrapper():
 @lru_cache(maxsize=FILTER_CACHE_LRU_SIZE)
 def _filter_function(filter):
     global _id_function
-    def_filter = _generate_filter_in_python(parse_filter(filter)._head, [])
+    consts = []
+    def_filter = _generate_filter_in_python(parse_filter(filter)._head, [], consts)
     fun_name = "_gen_hsfilter_" + str(_id_function)
-    function_template = "def %s(_grid, _entity):\n  return " % fun_name + "".join(def_filter)
+    function_template = "def %s(_grid, _entity, _c=()):\n  return " % fun_name + "".join(def_filter)
     _id_function += 1
-    return _FnWrapper(fun_name, function_template)
+    wrapper = _FnWrapper(fun_name, function_template)
+    wrapper.get().__defaults__ = (tuple(consts),)
+    return wrapper
 
 
 def filter_function(filter):
